@@ -8,22 +8,20 @@ Equality is structural equality of `Msg`: header fields, AVP order, code, vendor
 namespace Dia
 open Spec
 
-/-- a message the header can carry: command code and application id are ones the library knows (they are Rust enums) -/
-structure Msg.HeaderOk (m : Msg) : Prop where
-  cmd : cmdKnown m.cmd = true
-  app : appKnown m.app = true
+/-- a message the header can carry: command code and application id are ones the library knows (they are Rust enums;
+the tables `T` are read off the code on every run, `T.Fit`: every command code fits 24 bits) -/
+structure Msg.HeaderOk (T : Tables) (m : Msg) : Prop where
+  cmd : T.cmdKnown m.cmd = true
+  app : T.appKnown m.app = true
 
-theorem cmdKnown_lt {c : Nat} (h : cmdKnown c = true) : c < 16777216 := by
-  simp only [cmdKnown, List.mem_cons, List.not_mem_nil, or_false, decide_eq_true_eq] at h
-  omega
-theorem appKnown_lt {a : Nat} (h : appKnown a = true) : a < 4294967296 := by
-  simp only [appKnown, List.mem_cons, List.not_mem_nil, or_false, decide_eq_true_eq] at h
-  omega
+/-- the tables of the pinned commit fit (the run-time check `fitB` covers whatever tables are probed) -/
+theorem defaultTables_fit : ({} : Tables).Fit := Tables.fit_of_fitB _ (by decide)
 
 /-- **C02.** For every consistent, carriable message whose AVPs the dictionary types and whose groups nest no deeper
 than the decoder's limit: encoding succeeds, and decoding the octets - for *every* leniency configuration of the
 decoder - returns exactly the message. -/
-theorem C02_roundtrip (cfg : Cfg) (dict : Lookup) (m : Msg) (hg : m.Good) (hh : m.HeaderOk)
+theorem C02_roundtrip (cfg : Cfg) (hf : cfg.tables.Fit) (dict : Lookup) (m : Msg) (hg : m.Good)
+    (hh : m.HeaderOk cfg.tables)
     (hty : TypedList dict m.avps) (h24 : m.length < 16777216) (hd : depthList m.avps ≤ cfg.limit) :
     m.enc.err = none ∧ decMsg cfg dict m.enc.bytes = .ok m := by
   have hs := encList_spec m.avps hg.wf hg.cons
@@ -41,25 +39,26 @@ theorem C02_roundtrip (cfg : Cfg) (dict : Lookup) (m : Msg) (hg : m.Good) (hh : 
   refine ⟨rfl, ?_⟩
   simp only
   refine decMsg_rt cfg dict m (encList m.avps).bytes hg.cons hg.wf hty hg.len h24 hh.cmd hh.app
-    (cmdKnown_lt hh.cmd) (appKnown_lt hh.app) hd (by rw [l1, l2]) ?_
+    (Tables.cmd_lt hf hh.cmd) (Tables.app_lt hf hh.app) hd (by rw [l1, l2]) ?_
   rw [hfix]
   exact hE
 
 /-- ... in particular for every message a construction history inside C01's quantifier produces -/
-theorem C02_history (cfg : Cfg) (D : Dict) (ops : List Op) (hok : OpsOk cfg { dict := D } ops) :
+theorem C02_history (cfg : Cfg) (hf : cfg.tables.Fit) (D : Dict) (ops : List Op) (hok : OpsOk cfg { dict := D } ops) :
     let m := (MState.run cfg { dict := D } ops).msg
-    m.HeaderOk → TypedList D.lookup m.avps → m.length < 16777216 → depthList m.avps ≤ cfg.limit →
+    m.HeaderOk cfg.tables → TypedList D.lookup m.avps → m.length < 16777216 → depthList m.avps ≤ cfg.limit →
       m.enc.err = none ∧ decMsg cfg D.lookup m.enc.bytes = .ok m := by
   intro m hh hty h24 hd
   have hg := (C01_encode_exact cfg D ops hok h24).2.2
-  exact C02_roundtrip cfg D.lookup m hg hh hty h24 hd
+  exact C02_roundtrip cfg hf D.lookup m hg hh hty h24 hd
 
 /-- in the operation machine: re-encoding and decoding a built message is the identity on it -/
-theorem C02_reencode_fixpoint (cfg : Cfg) (s : MState) (hg : s.msg.Good) (hh : s.msg.HeaderOk)
+theorem C02_reencode_fixpoint (cfg : Cfg) (hf : cfg.tables.Fit) (s : MState) (hg : s.msg.Good)
+    (hh : s.msg.HeaderOk cfg.tables)
     (hty : TypedList s.dict.lookup s.msg.avps) (h24 : s.msg.length < 16777216)
     (hd : depthList s.msg.avps ≤ cfg.limit) :
     (s.step cfg .reencode).1.msg = s.msg ∧ (s.step cfg .reencode).2 = .ok := by
-  obtain ⟨h1, h2⟩ := C02_roundtrip cfg s.dict.lookup s.msg hg hh hty h24 hd
+  obtain ⟨h1, h2⟩ := C02_roundtrip cfg hf s.dict.lookup s.msg hg hh hty h24 hd
   simp only [MState.step, h1, h2]
   exact ⟨trivial, trivial⟩
 
@@ -67,9 +66,10 @@ theorem C02_reencode_fixpoint (cfg : Cfg) (s : MState) (hg : s.msg.Good) (hh : s
 in the sense of the independent relation `Spec.Parses`, which does not mention the model - as exactly the content of
 that message; by `C03_unique` as nothing else. Encoder and decoder therefore cannot share a consistent but wrong
 convention: both are pinned to `Spec`. -/
-theorem C02_encoding_parses (dict : Lookup) (m : Msg) (hg : m.Good) (hh : m.HeaderOk) (hty : TypedList dict m.avps)
-    (h24 : m.length < 16777216) : m.enc = ⟨Spec.encode m.abs, none⟩ ∧ Parses dict (Spec.encode m.abs) m.abs :=
-  ⟨(Msg.enc_spec m hg.wf hg.cons hg.len h24).1, enc_parses dict m hg hh.cmd hh.app hty h24⟩
+theorem C02_encoding_parses (T : Tables) (dict : Lookup) (m : Msg) (hg : m.Good) (hh : m.HeaderOk T)
+    (hty : TypedList dict m.avps)
+    (h24 : m.length < 16777216) : m.enc = ⟨Spec.encode m.abs, none⟩ ∧ Parses T dict (Spec.encode m.abs) m.abs :=
+  ⟨(Msg.enc_spec m hg.wf hg.cons hg.len h24).1, enc_parses T dict m hg hh.cmd hh.app hty h24⟩
 
 /-! non-vacuity: a message with a vendor AVP and a group, under a dictionary that types them, meets every hypothesis -/
 def exDict : Lookup := fun c v =>
@@ -79,7 +79,7 @@ def exMsg : Msg :=
   (Msg.new 272 4 0x80 1 2).addAvp 14 (some 9) 0x40 (.unsigned32 5) |>.addAvp 9 none 0
     (.grouped [Avp.new 16 none 0 (.utf8 [0x61, 0x62, 0x63])])
 
-example : exMsg.Good ∧ exMsg.HeaderOk ∧ TypedList exDict exMsg.avps ∧ exMsg.length < 16777216 ∧
+example : exMsg.Good ∧ exMsg.HeaderOk {} ∧ TypedList exDict exMsg.avps ∧ exMsg.length < 16777216 ∧
     depthList exMsg.avps ≤ 32 := by
   refine ⟨⟨?_, ?_, ?_⟩, ⟨by decide, by decide⟩, ?_, by decide, by decide⟩
   · simp [exMsg, Msg.addAvp, Msg.add, Msg.new, Avp.new, WFList, Avp.WF, Value.WF, Value.leafWF, hdrLen, Value.len,
